@@ -3,12 +3,12 @@ package main
 // Symbolic execution of go/ssa function bodies = VC generation.
 
 import (
-	"sort"
 	"fmt"
-	"os"
 	"go/constant"
 	"go/token"
 	"go/types"
+	"os"
+	"sort"
 	"strings"
 
 	"golang.org/x/tools/go/ssa"
@@ -131,65 +131,65 @@ type SideOblig struct {
 }
 
 type Exec struct {
-	quantTypes    map[*Term][]types.Type // forall term -> Go types of its bound variables (for replay witnesses)
-	fnvWrites     []fnvWrite
-	folding       int
-	foldedCells   map[int]bool
-	dynDispatch   int
-	dispatchDepth int
-	freshBoxes  []*Term // interface values holding objects allocated during this execution
-	recApps     map[*Term]callRec // opaque applications of structural recursive spec functions (for verifspec.Reveal)
-	revealing   *Term
-	cur         *State // state of the instruction being executed (for range-aware int/bit-vector conversions)
-	i2bMemo     map[*Term]*Term
-	mergeBypass *ssa.Function
-	c        *Ctx
-	prog     *Program
-	stack    []callRec
-	steps    int
-	maxSteps int
-	nextCell int
-	side     []SideOblig
-	aborted  []string
-	h        *Harness
-	paths    int
-	iterSrc  map[*Term]iterRole // symbolic iterator closures
-	iterSources map[int]*iterSource
-	iterOf      map[*Term]int
-	nIter    int
-	noGhost  bool // option noghost: injected ghost statements are skipped
-	cellType map[int]types.Type
-	cellName map[int]string
-	fresh0   int // cells with id > fresh0 were allocated during the run
-	cover    map[*ssa.Function]bool
-	mergedFacts []*Term
-	globals     map[string]*ssa.Global
-	globalVals  map[string]*Term
-	initCells   map[int]*Term
-	initDone    map[*ssa.Package]bool
-	inInit      bool
-	discovering int
-	mergedDepth int
-	curLoop     *loopCtx
-	entryState  *State
+	quantTypes                         map[*Term][]types.Type // forall term -> Go types of its bound variables (for replay witnesses)
+	fnvWrites                          []fnvWrite
+	folding                            int
+	foldedCells                        map[int]bool
+	dynDispatch                        int
+	dispatchDepth                      int
+	freshBoxes                         []*Term           // interface values holding objects allocated during this execution
+	recApps                            map[*Term]callRec // opaque applications of structural recursive spec functions (for verifspec.Reveal)
+	revealing                          *Term
+	cur                                *State // state of the instruction being executed (for range-aware int/bit-vector conversions)
+	i2bMemo                            map[*Term]*Term
+	mergeBypass                        *ssa.Function
+	c                                  *Ctx
+	prog                               *Program
+	stack                              []callRec
+	steps                              int
+	maxSteps                           int
+	nextCell                           int
+	side                               []SideOblig
+	aborted                            []string
+	h                                  *Harness
+	paths                              int
+	iterSrc                            map[*Term]iterRole // symbolic iterator closures
+	iterSources                        map[int]*iterSource
+	iterOf                             map[*Term]int
+	nIter                              int
+	noGhost                            bool // option noghost: injected ghost statements are skipped
+	cellType                           map[int]types.Type
+	cellName                           map[int]string
+	fresh0                             int // cells with id > fresh0 were allocated during the run
+	cover                              map[*ssa.Function]bool
+	mergedFacts                        []*Term
+	globals                            map[string]*ssa.Global
+	globalVals                         map[string]*Term
+	initCells                          map[int]*Term
+	initDone                           map[*ssa.Package]bool
+	inInit                             bool
+	discovering                        int
+	mergedDepth                        int
+	curLoop                            *loopCtx
+	entryState                         *State
 	relyPtr, guarPtr, relyVal, guarVal *Term
-	tailrec     map[string]bool
-	nAtomic     int
-	sharedVals  []*Term
-	modifies    []*Term
-	jsonMarshals []jsonRec
-	valueSort   *Sort
-	recFuel     map[*ssa.Function]int
-	maxFuel     int
-	loopBound   int
-	nFrame      int
-	frameOff    bool
-	unroll      bool
-	assumeFns   map[string]bool
-	ranges      map[*Term]*rangeInfo
-	rangeOfMap  map[*Term]*Term
-	summariesUsed []string
-	trustedUsed []string
+	tailrec                            map[string]bool
+	nAtomic                            int
+	sharedVals                         []*Term
+	modifies                           []*Term
+	jsonMarshals                       []jsonRec
+	valueSort                          *Sort
+	recFuel                            map[*ssa.Function]int
+	maxFuel                            int
+	loopBound                          int
+	nFrame                             int
+	frameOff                           bool
+	unroll                             bool
+	assumeFns                          map[string]bool
+	ranges                             map[*Term]*rangeInfo
+	rangeOfMap                         map[*Term]*Term
+	summariesUsed                      []string
+	trustedUsed                        []string
 }
 
 type iterRole struct {
@@ -302,11 +302,11 @@ func (x *Exec) fork(st *State, cond *Term) (*State, *State) {
 }
 
 type Frame struct {
-	fn     *ssa.Function
-	env    map[ssa.Value]*Term
-	prev   *ssa.BasicBlock
-	defers []deferred
-	visits map[*ssa.BasicBlock]int
+	fn          *ssa.Function
+	env         map[ssa.Value]*Term
+	prev        *ssa.BasicBlock
+	defers      []deferred
+	visits      map[*ssa.BasicBlock]int
 	loopsActive map[*ssa.Call]*loopCtx
 	skipPhi     *ssa.BasicBlock
 }
